@@ -10,8 +10,11 @@
    `>=` (ge_vv) for the slew, `>` (gt_pp) for the proportion.
    Part 2 theorems hold over every ordered commutative ring (Proofs.ordered_ring),
    with the window taps as data. *)
-From Coq Require Import ZArith List Bool Lia Ring.
-From IBL.C16 Require Import Model Proofs Sweep.
+From Coq Require Import String ZArith List Bool Lia Ring Field Reals.
+From Flocq Require Import Core BinarySingleNaN.
+Require IBL.C09.Model IBL.C09.Proofs.
+Import IBL.C09.Model IBL.C09.Proofs.
+From IBL.C16 Require Import Model Proofs Sweep Range RangeProofs Ulp.
 Import ListNotations.
 Open Scope Z_scope.
 
@@ -88,17 +91,93 @@ Theorem C16_bad_range_length_rejected :
 Proof. exact pub_flags_reject. Qed.
 Print Assumptions C16_bad_range_length_rejected.
 
-(* IEEE instance, default proportion: for every channel count 1..400 and every
-   count c within five channels of nc/5 (|5c - nc| <= 25: the counts one below /
-   at / above proportion*nc and their neighbours), the float64 test  c/nc > 0.2  of
-   the source decides exactly "more than one fifth of the channels" (exhaustive
-   evaluation of the Flocq model).  Partial: the statement for ALL c <= nc was
-   checked the same way but is not in the build, see Sweep.v. *)
-Theorem C16_default_proportion_exact_near_boundary_partial :
-  forall nc c, 1 <= nc <= 400 -> 0 <= c <= nc -> Z.abs (5 * c - nc) <= 25 ->
+(* IEEE instance (Flocq binary64), default proportion: for every channel count 1..400
+   and EVERY count c, the float64 test  c/nc > 0.2  of the source decides exactly
+   "more than one fifth of the channels" (exhaustive evaluation of the counts within
+   five channels of nc/5, monotonicity of round-to-nearest for the others). *)
+Theorem C16_default_proportion_exact_upto_400 :
+  forall nc c, 1 <= nc <= 400 -> 0 <= c <= nc ->
   i_gt_pp (i_mean c nc) p02 = (nc <? 5 * c).
-Proof. exact pub_default_prop. Qed.
-Print Assumptions C16_default_proportion_exact_near_boundary_partial.
+Proof. exact pub_default_prop_full. Qed.
+Print Assumptions C16_default_proportion_exact_upto_400.
+
+(* IEEE instance, ANY finite float64 proportion p, any 0 <= c <= n < 2^53: the
+   source's test  fl(c/n) > p  (i) never fires unless the exact fraction exceeds p,
+   (ii) fires as soon as some float64 q lies in (p, c/n] — it can only miss when the
+   exact fraction is within one float above p (e.g. p = fl(1/3), 1 channel of 3) —
+   and (iii) is exactly  round-to-nearest-even(c/n) > p. *)
+Theorem C16_proportion_test_last_ulp :
+  forall c n (p : b64), 0 <= c <= n -> 1 <= n < 2 ^ 53 -> is_finite p = true ->
+  (i_gt_pp (i_mean c n) p = true -> (IZR c / IZR n > B2R p)%R) /\
+  (forall q : b64, is_finite q = true -> (B2R p < B2R q)%R -> (B2R q <= IZR c / IZR n)%R ->
+     i_gt_pp (i_mean c n) p = true) /\
+  (i_gt_pp (i_mean c n) p = true <-> (rnd64 (IZR c / IZR n) > B2R p)%R).
+Proof. exact pub_proportion_last_ulp. Qed.
+Print Assumptions C16_proportion_test_last_ulp.
+
+(* ---- Part 1b: the full-scale voltage handed over by the reader ------------------ *)
+(* decompress_destripe_cbin calls saturation(max_voltage = Reader.range_volts[:nc - nsync]).
+   The metadata layer is C09's model; the hypotheses below are verbatim those of
+   C09_s2v_np1 / C09_s2v_np2 plus the stream type.  entry_value r mi mi (CG g) denotes
+   (r / mi / g) * mi in the arithmetic W. *)
+
+(* Neuropixels 1.0 / Ultra, AP (LF) stream: max_voltage has one entry per voltage
+   channel, entry c built from the AP (LF) gain of IMRO entry c — each channel its own. *)
+Theorem C16_max_voltage_from_reader_np1 :
+  forall (W : Type) (of_dec : dec -> W) (of_int : Z -> W) (wdiv wmul : W -> W -> W) (wone : W)
+    d rng mi v h es x y sy ntr st nsy strm,
+  int2volt d = Some (rng, mi) ->
+  lookup (lit "imroTbl") d = Some (VStr (imro_text h es)) ->
+  lookup (lit "snsApLfSy") d = Some x -> py_index x (-1) = Some y -> py_int y = Some sy -> 0 <= sy ->
+  nchannels d = Some ntr -> sync_indices d = Some (st, nsy) ->
+  version d = Some v -> is_np2 v = false ->
+  Forall (fun e => 0 <= ap_gain e) es -> Forall (fun e => 0 <= lf_gain e) es ->
+  0 <= ntr - nsy -> (Z.to_nat (ntr - nsy) <= length es)%nat ->
+  get_type d = Some (Some strm) -> strm <> SNidq ->
+  let gain := match strm with SLf => lf_gain | _ => ap_gain end in
+  let n := Z.to_nat (ntr - nsy) in
+  let mvs := map (fun e => entry_value W of_dec of_int wdiv wmul wone rng mi mi (CG (gain e, O))) (firstn n es) in
+  max_voltage_of W of_dec of_int wdiv wmul wone d = Some mvs /\
+  length mvs = n /\
+  forall c e0 dw, (c < n)%nat ->
+    chan_mv W mvs c dw = entry_value W of_dec of_int wdiv wmul wone rng mi mi (CG (gain (nth c es e0), O)).
+Proof.
+  intros W of_dec of_int wdiv wmul wone d rng mi v h es x y sy ntr st nsy strm
+         Hi Ht Hx Hy Hs Hs0 Hn Hsy Hv Hnp Hap Hlf H0 Hle Hty Hnn gain n mvs.
+  split; [exact (pub_max_voltage_np1 W of_dec of_int wdiv wmul wone d rng mi v h es x y sy ntr st nsy strm
+                   Hi Ht Hx Hy Hs Hs0 Hn Hsy Hv Hnp Hap Hlf H0 Hle Hty Hnn)|].
+  split; [unfold mvs; rewrite map_length, firstn_length; unfold n; lia|].
+  intros c e0 dw Hc. unfold mvs. now apply chan_mv_map_firstn.
+Qed.
+Print Assumptions C16_max_voltage_from_reader_np1.
+
+(* Neuropixels 2.0: every voltage channel gets the fixed gain 80 *)
+Theorem C16_max_voltage_from_reader_np2 :
+  forall (W : Type) (of_dec : dec -> W) (of_int : Z -> W) (wdiv wmul : W -> W -> W) (wone : W)
+    d rng mi v tbl x y sy ntr st nsy strm,
+  int2volt d = Some (rng, mi) ->
+  lookup (lit "imroTbl") d = Some tbl ->
+  lookup (lit "snsApLfSy") d = Some x -> py_index x (-1) = Some y -> py_int y = Some sy -> 0 <= sy ->
+  nchannels d = Some ntr -> sync_indices d = Some (st, nsy) ->
+  version d = Some v -> is_np2 v = true -> 0 <= ntr - nsy ->
+  get_type d = Some (Some strm) -> strm <> SNidq ->
+  max_voltage_of W of_dec of_int wdiv wmul wone d
+    = Some (repeat (entry_value W of_dec of_int wdiv wmul wone rng mi mi (CG (80, O))) (Z.to_nat (ntr - nsy))).
+Proof. exact pub_max_voltage_np2. Qed.
+Print Assumptions C16_max_voltage_from_reader_np2.
+
+(* in exact arithmetic (any field) the entry is imAiRangeMax / gain: with
+   C16_flags_spec the threshold of channel c is thr98 (imAiRangeMax / gain_c), i.e.
+   0.98 x imAiRangeMax / gain_c *)
+Theorem C16_full_scale_is_range_over_gain :
+  forall (F : Type) (f0 f1 : F) (fadd fmul fsub : F -> F -> F) (fopp : F -> F)
+    (fdiv : F -> F -> F) (finv : F -> F),
+  field_theory f0 f1 fadd fmul fsub fopp fdiv finv (@eq F) ->
+  forall (of_dec : dec -> F) (of_int : Z -> F) r mi g,
+  of_int mi <> f0 -> of_dec g <> f0 ->
+  entry_value F of_dec of_int fdiv fmul f1 r mi mi (CG g) = fdiv (of_dec r) (of_dec g).
+Proof. exact pub_full_scale_range_over_gain. Qed.
+Print Assumptions C16_full_scale_is_range_over_gain.
 
 (* ---- Part 2: the mute ---------------------------------------------------- *)
 
@@ -228,4 +307,15 @@ Example C16_example_flags_binary32 :
          [[x; x; o]; [o; x; o]; [o; o; o]; [o; o; o]; [o; o; o]])
     [of_me_m 53 1024 Hp53 He53 5404319552844595 (-53)]
   = Some [false; true; false].
+Proof. vm_compute. reflexivity. Qed.
+
+(* a 3-channel Neuropixels 1.0 AP file with different gains on the two voltage
+   channels: C09's parser + range_volts give one entry per saved channel, the two
+   voltage entries carry gains 500 and 250, the sync entry is 1 * maxint; ncv = 2 *)
+Definition small_np1_file : str :=
+  lit ("typeThis=imec" ++ nl ++ "imDatPrb_type=0" ++ nl ++ "imAiRangeMax=0.6" ++ nl ++ "nSavedChans=3" ++ nl ++
+       "snsApLfSy=2,0,1" ++ nl ++ "~imroTbl=(0,2)(0 0 0 500 250 1)(1 0 0 250 125 1)" ++ nl).
+Example C16_example_range_volts_np1 :
+  option_map (fun d => (range_volts d, ncv d)) (read_meta small_np1_file)
+  = Some (Some ((6, 1%nat), 512, 512, [CG (500, O); CG (250, O); C1]), Some 2).
 Proof. vm_compute. reflexivity. Qed.
